@@ -1157,6 +1157,10 @@ def _kw_view(v, kwname, ctx, depth=0):
         ka = a[1] or (lambda n: True)
         kb = b2[1] or (lambda n: True)
         return ("filtered", lambda n: None if ka(n) is None or kb(n) is None else (ka(n) and kb(n)))
+    if v.op == "call" and call_name(v) == "builtins.dict" and len(v.a[1]) == 1 and v.a[1][0].op == "dict":
+        stars = [x for k, x in v.a[2] if k == "**"]
+        if len(stars) == 1:
+            return _kw_view(stars[0], kwname, ctx, depth + 1)  # dict({defaults}, **kwargs)
     if v.op == "call" and call_name(v) in ("builtins.dict", ".copy", "copy.copy", "copy.deepcopy") and len(v.a[1]) == 1:
         return _kw_view(v.a[1][0], kwname, ctx, depth + 1)
     if v.op == "comp" and v.a[0] == "dict" and len(v.a[2]) == 1:
